@@ -184,12 +184,39 @@ func c10Body(env *simrt.Env) {
 		expectActive = false
 	}
 
-	stopK := func() {
+	var stopK func()
+	stopK = func() {
 		k := 1 + simrt.Draw(3)
 		done := make(chan int, k)
+		// sometimes a client asks for a Start while the Stop calls are in progress
+		// (built-in sources only: they are started by the real SourceControl.Start, whose serialisation with
+		// Stop is part of what is being checked; the scripted source is started by a harness stand-in)
+		racing := kind < 2 && simrt.Draw(4) == 0
+		var raceErr error
+		stopsDone := false
+		raceDone := make(chan struct{})
+		if racing {
+			delay := time.Duration(simrt.Draw(5)) * 5 * time.Millisecond
+			go func() {
+				time.Sleep(delay)
+				simrt.Within(20*time.Second, "C10.start-returns", "lifecycle:start-hangs", func() {
+					// an impatient client: asks again until the server accepts (or the Stop callers are done)
+					for try := 0; try < 300; try++ {
+						name := c.name
+						var ok2 bool
+						raceErr = sc.Start(&name, &ok2)
+						if raceErr == nil || stopsDone {
+							break
+						}
+						time.Sleep(time.Duration(200+simrt.Draw(800)) * time.Microsecond)
+					}
+				})
+				close(raceDone)
+			}()
+		}
 		for i := 0; i < k; i++ {
 			i := i
-			viaRPC := simrt.Draw(2) == 0
+			viaRPC := simrt.Draw(2) == 0 || racing // with a Start in flight every caller is a client of the server
 			delay := time.Duration(simrt.Draw(4)) * 7 * time.Millisecond
 			go func() {
 				time.Sleep(delay)
@@ -212,6 +239,38 @@ func c10Body(env *simrt.Env) {
 			simrt.Hit("concurrent-stops")
 		}
 		env.Op("%d concurrent Stop calls returned", k)
+		stopsDone = true
+		if racing {
+			<-raceDone
+			simrt.Hit("start-racing-stop")
+			env.Op("racing Start -> %v", raceErr)
+			// A Start can only have been accepted after a Stop had made the source inactive; a Stop
+			// caller arriving later may have stopped that new run again. Both outcomes are legal:
+			// what is not is a source that is neither cleanly running nor cleanly stopped.
+			time.Sleep(50 * time.Millisecond)
+			if raceErr == nil && c.ds.GetState() == Active {
+				simrt.Hit("racing-start-accepted")
+				before0 := c.readCounter()
+				if kind == 3 {
+					w.feedBlock(40, nil)
+					w.feedBlock(40, nil)
+				}
+				deadline := time.Now().Add(2 * time.Second)
+				for c.readCounter() == before0 {
+					if time.Now().After(deadline) {
+						simrt.Fail("C10.delivers-blocks", "lifecycle:no-blocks-after-start", "a Start accepted while Stop calls were finishing reports Active but no block was processed within 2 s (%s)", c.name)
+					}
+					time.Sleep(5 * time.Millisecond)
+				}
+				expectActive = true
+				stopK()
+				return
+			}
+			if st := c.ds.GetState(); st != Inactive && st != Active {
+				// give a stop that is still completing its turn
+				time.Sleep(500 * time.Millisecond)
+			}
+		}
 		// the server object refreshes its own view on the next call that needs it
 		sc.handlePossibleStoppedSource()
 		checkStopped(fmt.Sprintf("after %d Stop calls", k))
